@@ -37,7 +37,6 @@ type sibNorm struct {
 	zeroVars []string
 }
 
-
 func (n sibNorm) str(s string) string {
 	for _, zv := range n.zeroVars {
 		// "(X + phi:v)" reads as X under the assumption v == 0 (structural form produced by sibSym)
@@ -210,7 +209,9 @@ func sibTables(fn *ssa.Function, n sibNorm, maxRuns int) (map[string][]sibRec, s
 		var recs []sibRec
 		for _, o := range outs {
 			conds := map[string]bool{}
-			for k, v := range o.Assign {
+			for _, k := range o.AtomKeys() {
+				v := o.Assign[k]
+				_ = v
 				conds[n.str(sibSym(o.AtomSyms[k]))] = v
 			}
 			var acts []string
